@@ -104,6 +104,7 @@ func errNilOfCall(pred func(ssa.CallInstruction) bool) ir.Guard {
 }
 
 func runC12(c *core.Ctx) {
+	checkReplayWritesWhatSubmitWrites(c)
 	sb := c.Fn(pkLedger, "LedgerStoreImp.submitBlock")
 	if sb != nil {
 		saves := []string{"saveBlockToBlockStore", "saveBlockToStateStore", "saveBlockToEventStore"}
